@@ -322,7 +322,7 @@ void h_poll_notify_fd_sync(void)
 	r = iv_fd_poll_notify_fd_sync(&v_state, &v_F);
 	__CPROVER_assert(r == 0 || r == -1, "verdict");
 	__CPROVER_assert(IFF(r == -1, verif_in.w_ret < 0 || (verif_in.w_revents[0] & POLLNVAL)), "[C07,C15] rejected iff the kernel reports an error or an invalid descriptor; EINTR is retried");
-	__CPROVER_assert(IMPLIES(r == -1, v_state.u.poll.num_regd_fds == n0 && v_F.u.index == -1), "[C07] a rejected descriptor gets no slot");
+	__CPROVER_assert(IMPLIES(r == -1, v_state.u.poll.num_regd_fds == n0 && v_F.u.index == -1), "[C07,C18,C03] a rejected descriptor gets no slot: the poll array never points to an iv_fd that is not registered (no later write to, or handler call on, an object the caller may have freed)");
 	__CPROVER_assert(IMPLIES(r == 0, v_state.u.poll.num_regd_fds == n0 + 1 && v_F.u.index == n0), "[C02] an accepted one is added to the array");
 	CANARY();
 }
